@@ -1,5 +1,6 @@
 """C17 — cancel hits exactly the selected targets' jobs; one failure stops nothing else."""
 
+import json
 import os
 import random
 import re
@@ -222,6 +223,25 @@ def run_pool(case):
             table = dict(cli.parse_status(r2.out))
             if table.get("a0") in ("submitted", "running"):
                 res.violation("still-live-after-cancel", "local: a0 shown as %s after cancel" % table.get("a0"))
+            # a client that pipelines "enqueue" and "cancel" in one write: the cancel is processed before the new
+            # task's worker had its first step; the task must still end up cancelled, not stay submitted
+            nxt = max(pool.states()) + 1
+            c = pool.client()
+            try:
+                c.send_line(
+                    json.dumps({"__kind__": "enqueue_task", "name": "pipelined", "script": "sleep 30", "working_dir": proj.root, "time_limit": None, "deps": []})
+                    + "\n"
+                    + json.dumps({"__kind__": "cancel_task", "tid": nxt})
+                    + "\n"
+                )
+                m = c.recv()
+            finally:
+                c.close()
+            if m and m.get("tid") == nxt:
+                pool.wait_states(lambda st: st.get(nxt) == "CANCELLED", timeout=10)
+                res.mon("pool_cancels")
+                if pool.states().get(nxt) != "CANCELLED":
+                    res.violation("still-live-after-cancel", "local: a task cancelled right after it was enqueued (same packet) is %s, not CANCELLED" % pool.states().get(nxt))
             # all the rest with the prompt confirmed
             r = cli.gwf(proj.root, ["cancel"], env, stdin="y\n", audit=False)
             pool.wait_states(lambda st: all(v in ("CANCELLED", "COMPLETED", "FAILED", "KILLED") for v in st.values()), timeout=30)
